@@ -1,3 +1,62 @@
-From CRS Require Import Lib.Bytes Model.Broker.
-Theorem c01_placeholder : cin init = None.
-Proof. reflexivity. Qed.
+(** C01 — one shell at a time, and its two streams carry the same callback ID.
+    All statements are about every reachable state of the broker model
+    ([run ops] for EVERY operation list: any mix of attempts, IDs, endings,
+    releases in any order, shutdown). *)
+From CRS Require Import Lib.Bytes Model.Broker Proofs.BrokerProofs.
+Open Scope N_scope.
+
+(** The broker holds at most one input and one output stream (one slot each);
+    the holders have the right direction, a non-empty key, and — when both
+    slots are occupied — the SAME key (byte equality). *)
+Theorem c01_attached_same_key : forall ops a da b db,
+  cin (fst (run ops)) = Some (a, da) -> cout (fst (run ops)) = Some (b, db) ->
+  sd_dir da = DIn /\ sd_dir db = DOut /\ sd_key da = sd_key db /\ key_missing (sd_key da) = false.
+Proof. exact attached_same_key. Qed.
+
+(** The streams whose connect call is in progress (proxy running or waiting
+    to release) are exactly the slot holders; identities are never confused. *)
+Theorem c01_busy_iff_slot_holder : forall ops, Tab (fst (run ops)).
+Proof. exact Tab_reachable. Qed.
+
+(** The admission decision, exactly: an attempt is accepted iff [accepts]. *)
+Theorem c01_accepted : forall s x, accepts s x = true ->
+  slot (fst (admission s x)) (sd_dir (st_d x)) = Some (st_id x, st_d x) /\
+  bkey (fst (admission s x)) = Some (sd_key (st_d x)).
+Proof. exact admission_accepts. Qed.
+
+(** A refused attempt changes nothing but its own bookkeeping, returns at
+    once, is written nothing, raises no event, and — except during shutdown —
+    is announced to the operator and logged with exactly one error record. *)
+Theorem c01_refused_inert : forall s x, accepts s x = false ->
+  fst (admission s x) = upd s (set_phase x PDone) /\
+  o_att (snd (admission s x)) = [] /\ o_ret (snd (admission s x)) = [st_id x] /\
+  o_w (snd (admission s x)) = [] /\ o_ev (snd (admission s x)) = [] /\
+  (nomore s = true -> o_och (snd (admission s x)) = [] /\ o_log (snd (admission s x)) = []) /\
+  (nomore s = false -> o_och (snd (admission s x)) = [ONote NRefused (st_id x)] /\
+                       exists l, o_log (snd (admission s x)) = [Log l (st_id x)]).
+Proof. exact admission_refuses. Qed.
+
+(** Operator input is written only to the holder of the input slot; shell
+    output is displayed only when the holder of the output slot is read. *)
+Theorem c01_input_only_to_holder : forall s o, Inv s -> Tab s ->
+  forall w, In w (o_w (snd (step s o))) -> exists sd, cin (fst (step s o)) = Some (wid w, sd).
+Proof. exact writes_go_to_cin. Qed.
+
+Theorem c01_output_only_from_holder : forall s o, Tab s ->
+  forall d, In (OPlain d) (o_och (snd (step s o))) ->
+  exists id e sd, o = OData id d e /\ cout s = Some (id, sd).
+Proof. exact plain_comes_from_cout. Qed.
+
+(** Non-vacuity: full attachment; a wrong-ID, a second-input and a tear-down-window refusal. *)
+Definition mkd (d : dir) (k : key) (a : N) : sdesc :=
+  {| sd_dir := d; sd_key := k; sd_addr := a; sd_wk := WFlushErr; sd_wfail := None; sd_ffail := None |}.
+Example c01_example :
+  let ops := [OAdmit 1 (mkd DIn (KUni [97]) 1); OAdmit 3 (mkd DOut (KUni [98]) 3); OAdmit 2 (mkd DOut (KUni [97]) 2);
+              OAdmit 4 (mkd DIn (KUni [97]) 4);
+              OData 2 [] (Some REof); ORelease 2; OAdmit 5 (mkd DOut (KUni [97]) 5)] in
+  let r := run ops in
+  cin (fst (run (firstn 3 ops))) = Some (1, mkd DIn (KUni [97]) 1) /\
+  cout (fst (run (firstn 3 ops))) = Some (2, mkd DOut (KUni [97]) 2) /\
+  map o_log (snd r) = [[Log LNew 1]; [Log LBadKey 3]; [Log LNew 2]; [Log LDup 4]; [Log (LDisc false) 2];
+                       [Log (LDisc false) 1]; [Log LTeardown 5]].
+Proof. vm_compute. repeat split; reflexivity. Qed.
